@@ -195,3 +195,70 @@ class NoSleep:
         for mod, t in self.saved:
             mod.time = t
         self.saved = []
+
+
+class S3Env:
+    """Make `create_table` / `load_table` run on a FakeS3: patches the backend factory and substitutes the one piece
+    that needs a network (pyarrow's own S3 client for data-file writes) by a writer that produces the same parquet bytes
+    with pyarrow and stores them through the backend (DESIGN §4: modelled, not verified)."""
+
+    def __init__(self, cas=True, fake=None, env_prefix=""):
+        self.cas = cas
+        self.fake = fake or FakeS3()
+        self.env_prefix = env_prefix
+        self.saved = []
+        self.backends = []
+
+    def backend_for(self, table_path):
+        tp = table_path.strip("/")
+        full = f"{self.env_prefix.rstrip('/')}/{tp}" if self.env_prefix and tp else (self.env_prefix.rstrip("/") or tp)
+        b = make_backend(full, self.cas, self.fake)
+        self.backends.append(b)
+        return b
+
+    def __enter__(self):
+        import datashard.data_operations as dops
+        import datashard.storage_backend as sb
+        env = self
+        self.saved.append((sb, "create_storage_backend", sb.create_storage_backend))
+        sb.create_storage_backend = lambda table_path: env.backend_for(table_path)
+        DFM = dops.DataFileManager
+        self.saved.append((DFM, "_get_arrow_filesystem", DFM._get_arrow_filesystem))
+        DFM._get_arrow_filesystem = lambda self_: None
+        orig_write = DFM.write_data_file
+        self.saved.append((DFM, "write_data_file", orig_write))
+
+        def write_data_file(self_, file_path, records, iceberg_schema, file_format=dops.FileFormat.PARQUET, partition_values=None):
+            if not isinstance(self_.storage, sb.S3StorageBackend):
+                return orig_write(self_, file_path, records, iceberg_schema, file_format, partition_values)
+            import io as _io
+            import pyarrow as pa
+            import pyarrow.parquet as pq
+            if records:
+                self_.validate_records_strict(records, iceberg_schema)
+            arrow_schema = self_.create_arrow_schema(iceberg_schema)
+            self_._get_arrow_path(file_path)
+            lower = upper = None
+            n = 0
+            buf = _io.BytesIO()
+            w = pq.ParquetWriter(buf, arrow_schema, compression="lz4")
+            if records:
+                table = pa.Table.from_pylist(records, schema=arrow_schema)
+                lower, upper = self_._compute_column_bounds(table, iceberg_schema)
+                w.write_table(table)
+                n = table.num_rows
+            w.close()
+            data = buf.getvalue()
+            clean = file_path.lstrip("/")
+            self_.storage.write_file(clean, data)
+            from datashard.integrity import IntegrityChecker
+            return dops.DataFile(file_path=file_path, file_format=file_format, partition_values=partition_values or {},
+                                 record_count=n, file_size_in_bytes=len(data), lower_bounds=lower, upper_bounds=upper,
+                                 checksum=IntegrityChecker.compute_checksum(data))
+        DFM.write_data_file = write_data_file
+        return self
+
+    def __exit__(self, *a):
+        for obj, name, val in reversed(self.saved):
+            setattr(obj, name, val)
+        self.saved = []
